@@ -130,6 +130,62 @@ theorem tx_last (c : JCtx) (e : Expr) (h : JsOkE e = true) : LastOk (txJ (toJsE 
       cases hm : jsMethodOp op with
       | some m => simp only [toJsE, hop, hm, txJ]; exact lastOk_paren _
       | none => simp only [toJsE, hop, hm, txJ]; exact lastOk_paren _
+  | plist as =>
+    have : txJ (toJsE c (.plist as)) = (S "propList(" ++ txArgs (toJsEs c as)) ++ S ")" := by
+      simp [toJsE, jcall, txJ, JE.needsParen, S]
+    rw [this]; exact lastOk_paren _
+  | oprop v o =>
+    simp only [JsOkE, Bool.and_eq_true] at h
+    simp only [toJsE, txJ]
+    exact lastOk_append _ v (jsIdLex_all v h.1).1 (lastOk_id v h.1)
+  | chunk k a b d =>
+    simp only [toJsE, txJ]
+    exact lastOk_snoc _ ']' (by decide)
+  | the t k as =>
+    match as, h with
+    | [e], h =>
+      rcases jsOkE_the t k e h with ⟨h1, _⟩ | ⟨op, r, ty, hs, hty, _, _, he⟩ | ⟨rfl, he⟩
+      · cases t with
+        | sound =>
+          have hp := prop_lex tblSound (by decide) k
+          simp only [toJsE, toJsEs, toJsThe, txJ]
+          exact lastOk_append _ _ (jsIdLex_all _ hp).1 (lastOk_id _ hp)
+        | sprite =>
+          have hp := prop_lex tblSprite (by decide) k
+          simp only [toJsE, toJsEs, toJsThe, txJ]
+          exact lastOk_append _ _ (jsIdLex_all _ hp).1 (lastOk_id _ hp)
+        | cast =>
+          have hp := prop_lex tblCast (by decide) k
+          simp only [toJsE, toJsEs, toJsThe, txJ]
+          exact lastOk_append _ _ (jsIdLex_all _ hp).1 (lastOk_id _ hp)
+        | video =>
+          have hp := prop_lex tblVideo (by decide) k
+          simp only [toJsE, toJsEs, toJsThe, txJ]
+          exact lastOk_append _ _ (jsIdLex_all _ hp).1 (lastOk_id _ hp)
+        | _ => simp [theTbl] at h1
+      · rcases toJsE_strThe c t k e op r ty hs hty with ⟨_, e1⟩ | ⟨_, e1⟩
+        · rw [e1]; simp only [txJ]; exact lastOk_snoc _ ']' (by decide)
+        · rw [e1]; simp only [jmem, txJ]
+          exact lastOk_append _ _ (by decide) (lastOk_id _ (by decide))
+      · have hp := prop_lex tblCast (by decide) k
+        rw [toJsE_fieldThe]
+        simp only [txJ]
+        exact lastOk_append _ _ (jsIdLex_all _ hp).1 (lastOk_id _ hp)
+    | [], h =>
+      cases t with
+      | special =>
+        have hk : k < 6 := by simpa [JsOkE] using h
+        have hp := (special_owner k hk).2
+        simp only [toJsE, toJsEs, toJsThe, hk, if_true, txJ]
+        exact lastOk_append _ _ (jsIdLex_all _ hp).1 (lastOk_id _ hp)
+      | _ => simp [JsOkE] at h
+    | _ :: _ :: _, h => simp [JsOkE] at h
+  | key v =>
+    have hv : jsIdLex v = true := by simpa [JsOkE] using h
+    by_cases hd : v = "date".toList ∨ v = "time".toList
+    · simp only [toJsE, hd, if_true, txJ]; exact lastOk_paren _
+    · simp only [toJsE, hd, if_false, txJ]
+      exact lastOk_append _ v (jsIdLex_all v hv).1 (lastOk_id v hv)
   | _ => simp [JsOkE] at h
 
 theorem tx_ne_nil (c : JCtx) (e : Expr) (h : JsOkE e = true) : txJ (toJsE c e) ≠ [] := by
@@ -145,6 +201,22 @@ theorem js_stmt (p : Int) (code : Node) (ind : Nat) (t : Str) (h : js true false
       .ok (.s (indentOf ind ++ (if code.withResult then S "fn_call(" ++ t ++ S ")" else t) ++ S ";\n")) := by
   have := hb.not_brace
   simp only [js, h, bind, Except.bind, Name.asStr, pure, Except.pure, this, Bool.false_eq_true, if_false]
+
+theorem jsOkLv_oprop (v : Spec.Name) (o : Expr) (hf : JsOkLv (.oprop v o) = true) : JsOkE (.oprop v o) = true := by
+  cases o with
+  | var k n =>
+    cases k <;> (simp only [JsOkLv, Bool.and_eq_true] at hf; simp only [JsOkE, Bool.and_eq_true, Bool.or_eq_true])
+    · exact ⟨hf.1, Or.inr hf.2⟩
+    · exact ⟨hf.1, Or.inr hf.2⟩
+    · exact hf
+    · exact hf
+  | _ => simp [JsOkLv] at hf
+
+theorem jsOkLv_the (t : Tbl) (k : Nat) (as : List Expr) (hf : JsOkLv (.the t k as) = true) : JsOkE (.the t k as) = true := by
+  match as, hf with
+  | [e], hf => simp only [JsOkLv, Bool.and_eq_true] at hf; exact hf.2
+  | [], hf => simp [JsOkLv] at hf
+  | _ :: _ :: _, hf => simp [JsOkLv] at hf
 
 /-- assignment targets -/
 theorem js_lv (c : JCtx) (lv : Expr) (hf : JsOkLv lv = true) (l : Node) (h : EmbLv lv l) (ind : Nat) :
@@ -165,6 +237,12 @@ theorem js_lv (c : JCtx) (lv : Expr) (hf : JsOkLv lv = true) (l : Node) (h : Emb
       obtain ⟨p, q, rfl⟩ := h
       simp only [js, leafJs, bind, Except.bind, pure, Except.pure]
       simp [toJsE, jid, txJ, JE.needsParen, S, jsReceiver, Name.str, isAsciiDigit]
+  | oprop v o =>
+    simp only [EmbLv] at h
+    exact js_emb c _ (jsOkLv_oprop v o hf) l h ind
+  | the t k as =>
+    simp only [EmbLv] at h
+    exact js_emb c _ (jsOkLv_the t k as hf) l h ind
   | _ => simp [JsOkLv] at hf
 
 theorem lv_ok (c : JCtx) (lv : Expr) (hf : JsOkLv lv = true) : txJ (toJsE c lv) ≠ [] ∧ LexOK (toJsE c lv) ∧ JFrag (toJsE c lv) := by
@@ -173,21 +251,55 @@ theorem lv_ok (c : JCtx) (lv : Expr) (hf : JsOkLv lv = true) : txJ (toJsE c lv) 
     cases k with
     | loc =>
       have hk : JsOkE (.var .loc v) = true := by simp only [JsOkLv] at hf; simp [JsOkE, hf]
-      exact ⟨tx_ne_nil c _ hk, toJsE_lexok c _ hk, toJsE_frag c _ (jsOk_src _ hk)⟩
+      exact ⟨tx_ne_nil c _ hk, toJsE_lexok c _ hk, toJsE_fragJ c _ hk⟩
     | param =>
       have hk : JsOkE (.var .param v) = true := by simp only [JsOkLv] at hf; simp [JsOkE, hf]
-      exact ⟨tx_ne_nil c _ hk, toJsE_lexok c _ hk, toJsE_frag c _ (jsOk_src _ hk)⟩
+      exact ⟨tx_ne_nil c _ hk, toJsE_lexok c _ hk, toJsE_fragJ c _ hk⟩
     | glob =>
       have hk : JsOkE (.var .glob v) = true := by simpa [JsOkLv, JsOkE] using hf
-      exact ⟨tx_ne_nil c _ hk, toJsE_lexok c _ hk, toJsE_frag c _ (jsOk_src _ hk)⟩
+      exact ⟨tx_ne_nil c _ hk, toJsE_lexok c _ hk, toJsE_fragJ c _ hk⟩
     | prop =>
       have hv : jsIdLex v = true := by simpa [JsOkLv] using hf
       refine ⟨by simp [toJsE, jid, txJ, S, JE.needsParen], ?_, ?_⟩
       · simp only [toJsE, LexOK]; exact ⟨lexok_jid "this" (by decide), hv⟩
       · exact toJsE_frag c _ trivial
+  | oprop v o =>
+    have hk := jsOkLv_oprop v o hf
+    exact ⟨tx_ne_nil c _ hk, toJsE_lexok c _ hk, toJsE_fragJ c _ hk⟩
+  | the t k as =>
+    have hk := jsOkLv_the t k as hf
+    exact ⟨tx_ne_nil c _ hk, toJsE_lexok c _ hk, toJsE_fragJ c _ hk⟩
   | _ => simp [JsOkLv] at hf
 
 theorem listFn_return : listFn (S "return") = false := by decide
+
+/-- a target whose bottom is not a global is an ordinary image -/
+theorem embTg_emb : ∀ (t : Expr), tgOk t = true → ∀ (l : Node), EmbTg t l → Emb t l
+  | .chunk k a b d, h, l, hl => by
+    simp only [tgOk] at h
+    simp only [EmbTg] at hl
+    obtain ⟨p, x, y, z, rfl, hx, hy, hz⟩ := hl
+    exact ⟨p, x, y, z, rfl, hx, hy, embTg_emb d h z hz⟩
+  | .var .glob _, h, _, _ => by simp [tgOk] at h
+  | .var .loc _, _, _, hl => by simpa [EmbTg] using hl
+  | .var .param _, _, _, hl => by simpa [EmbTg] using hl
+  | .var .prop _, _, _, hl => by simpa [EmbTg] using hl
+  | .int _, _, _, hl => by simpa [EmbTg] using hl
+  | .float _ _, _, _, hl => by simpa [EmbTg] using hl
+  | .str _, _, _, hl => by simpa [EmbTg] using hl
+  | .sym _, _, _, hl => by simpa [EmbTg] using hl
+  | .me, _, _, hl => by simpa [EmbTg] using hl
+  | .bin _ _ _, _, _, hl => by simpa [EmbTg] using hl
+  | .un _ _, _, _, hl => by simpa [EmbTg] using hl
+  | .field _, _, _, hl => by simpa [EmbTg] using hl
+  | .call _ _, _, _, hl => by simpa [EmbTg] using hl
+  | .mcall _ _ _, _, _, hl => by simpa [EmbTg] using hl
+  | .list _, _, _, hl => by simpa [EmbTg] using hl
+  | .plist _, _, _, hl => by simpa [EmbTg] using hl
+  | .the _ _ _, _, _, hl => by simpa [EmbTg] using hl
+  | .key _, _, _, hl => by simpa [EmbTg] using hl
+  | .movie _, _, _, hl => by simpa [EmbTg] using hl
+  | .oprop _ _, _, _, hl => by simpa [EmbTg] using hl
 
 /-- `return` / `return e` -/
 theorem js_call_return (p p' : Int) (nm : Str) (ops : List Node) (up it wr : Bool) (ind : Nat) (l : List Str)
@@ -292,6 +404,26 @@ theorem js_stmt_emb (hs : List Spec.Name) (hret : hs.contains (S "return") = fal
     have hlo : LastOk (S "exit()") := lastOk_paren (S "exit(")
     rw [js_stmt p _ ind _ e (by simpa [Node.withResult] using hlo)]
     simp [Node.withResult, toJsS, txS, jcall, txJ, txArgs, JE.needsParen, S]
+  | delete t =>
+    simp only [EmbSJ, EmbSH] at h
+    obtain ⟨p, q, l, rfl, hl⟩ := h
+    simp only [JsOkS, Bool.and_eq_true] at hf
+    have ht : JsOkE t = true := hf.1
+    have hl' : Emb t l := by first | exact hl | exact embTg_emb t hf.2 l hl
+    have e1 := js_emb { handlers := hs, inTell := false } t ht l hl' ind
+    have e2 := js_unary true (S "delete") q l ind (S "delete") _ rfl e1
+    rw [js_stmt p _ ind _ e2 (by simpa [Node.withResult] using lastOk_paren (S "delete" ++ S "(" ++ txJ (toJsE { handlers := hs, inTell := false } t)))]
+    simp [Node.withResult, toJsS, txS, jcall, txJ, txArgs, JE.needsParen, S, List.append_assoc]
+  | hilite t =>
+    simp only [EmbSJ, EmbSH] at h
+    obtain ⟨p, q, l, rfl, hl⟩ := h
+    simp only [JsOkS, Bool.and_eq_true] at hf
+    have ht : JsOkE t = true := hf.1
+    have hl' : Emb t l := by first | exact hl | exact embTg_emb t hf.2 l hl
+    have e1 := js_emb { handlers := hs, inTell := false } t ht l hl' ind
+    have e2 := js_unary true (S "hilite") q l ind (S "hilite") _ rfl e1
+    rw [js_stmt p _ ind _ e2 (by simpa [Node.withResult] using lastOk_paren (S "hilite" ++ S "(" ++ txJ (toJsE { handlers := hs, inTell := false } t)))]
+    simp [Node.withResult, toJsS, txS, jcall, txJ, txArgs, JE.needsParen, S, List.append_assoc]
   | _ => simp [JsOkS] at hf
 
 /-! structured statements: `if`, `repeat while`, `repeat with` -/
@@ -315,6 +447,8 @@ theorem toJsS_simple (c : JCtx) (s : Stmt) (hf : JsOkS s = true) : isSimpleJ (to
     · rfl
     · split <;> rfl
   | exit => rfl
+  | delete t => rfl
+  | hilite t => rfl
   | _ => simp [JsOkS] at hf
 
 theorem stripParens_group (x : Str) : stripParens (S "(" ++ x ++ S ")") = x := by
@@ -468,8 +602,12 @@ theorem js_tree (hs : List Spec.Name) (hret : hs.contains (S "return") = false) 
       | _ => simp [JsOkT] at hf
     | _ => simp [JsOkT] at hf
   | .put .., hf, _, _, _ => by simp [JsOkT] at hf
-  | .delete _, hf, _, _, _ => by simp [JsOkT] at hf
-  | .hilite _, hf, _, _, _ => by simp [JsOkT] at hf
+  | .delete t, hf, n, h, ind => by
+    simp only [JsOkT] at hf
+    rw [js_stmt_emb hs hret (.delete t) hf n h ind, txT_simple _ _ (toJsS_simple _ _ hf)]
+  | .hilite t, hf, n, h, ind => by
+    simp only [JsOkT] at hf
+    rw [js_stmt_emb hs hret (.hilite t) hf n h ind, txT_simple _ _ (toJsS_simple _ _ hf)]
   | .mcall .., hf, _, _, _ => by simp [JsOkT] at hf
   | .tell .., hf, _, _, _ => by simp [JsOkT] at hf
   | .repeatIn .., hf, _, _, _ => by simp [JsOkT] at hf
